@@ -38,7 +38,7 @@ PROPS = {
         ],
     },
     "C10": {
-        "units": ["hooks", "config", "storage"],
+        "units": ["hooks", "config", "storage", "schedule"],
         "design_ref": "DESIGN.md section 5 C10",
         "technique": "Verus function contracts over a ghost sequence of spawned processes; recursive spec for group expansion; ghost event trace for the file-write bracket",
         "text": "Deductive proof that hooks::call spawns exactly the hooks whose type list contains the event type, in declaration order, "
@@ -150,6 +150,22 @@ PROPS = {
             "which key and account URL the data-builder closures bind (request_certificate / account flows)",
         ],
     },
+    "C05": {
+        "units": ["chalproof", "schedule", "ident"],
+        "design_ref": "DESIGN.md section 5 C05",
+        "technique": "Verus function contracts: proof strings against RFC 8555 section 8 / RFC 8737 texts pinned in the contract; entry lookup against a spec function of (identifier, wildcard flag)",
+        "text": "Deductive proof that the key authorization is token.base64url(SHA-256(thumbprint input)), that http-01 / dns-01 / tls-alpn-01 "
+                "proofs are the key authorization, its base64url SHA-256 and the RFC 8737 extension text `1.3.6.1.5.5.7.1.31=critical,DER:04:20:<hex>` "
+                "with the raw digest, that the http-01 file name is the token, that an authorization is solved with the entry configured for the "
+                "wildcard name when it is a wildcard authorization and for the plain name otherwise, that the hooks run are those of that entry's "
+                "challenge type with the documented variables, and that the matching clean type is returned.",
+        "assumptions": [
+            "T: SHA-256, base64url, UTF-8 and the JSON text of the thumbprint JWK are uninterpreted functions; `{}` of 31 is \"31\", `{:02x}` of 4 and 32 are \"04\" and \"20\" (axiom_number_texts); SHA-256 yields 32 bytes",
+            "T: Display of Challenge prints the RFC names (table in acme_proto.rs, assumed); set_env has the documented precedence (assumed here)",
+            "X: the order of events inside request_certificate (POST only after the hooks succeeded, no hook for a valid authorization) - unit `issue` when built; "
+            "the reverse-DNS text for IP identifiers (get_tls_alpn_name: iterator chain through format!, not under contract)",
+        ],
+    },
     "C06": {
         "units": ["schedule", "x509time", "renew", "storage"],
         "design_ref": "DESIGN.md section 5 C06",
@@ -164,7 +180,7 @@ PROPS = {
         ],
     },
     "C07": {
-        "units": ["renew"],
+        "units": ["renew", "schedule"],
         "design_ref": "DESIGN.md section 5 C07",
         "technique": "Verus function contracts over ghost counters (requests, post-operation runs, time slept since the last request)",
         "text": "Deductive proof that one task step performs exactly one request and exactly one post-operation hook run, reports success iff "
